@@ -8,6 +8,7 @@ import (
 	"io"
 	"os"
 	"sync"
+	"github.com/douban/gobeansdb/utils"
 )
 
 const (
@@ -198,6 +199,10 @@ func (tree *HTree) dump(path string) {
 	}
 	f.Close()
 	f = nil
+	if utils.VerifOn {
+		utils.Verif("fs.pre", "tree.dump", path)
+		defer utils.Verif("fs.post", "tree.dump", path)
+	}
 	os.Rename(tmp, path)
 	logger.Infof("htree dumped %s, min leaf %d, max leaf %d", path, minleaf, maxleaf)
 }
@@ -299,6 +304,9 @@ func (tree *HTree) setReq(req *HTreeReq) {
 
 	tree.getLeafAndInvalidNodes(req.ki, &tree.ni)
 	tree.setToLeaf(&tree.ni, req)
+	if utils.VerifOn {
+		utils.Verif("tree.set", tree.bucketID, tree.depth, req.ki.KeyHash, req.item.Pos.ChunkID, req.item.Pos.Offset, req.item.Ver, req.item.Vhash)
+	}
 }
 
 // remove if same offset or oldPos.ChunkID = -1
@@ -308,6 +316,9 @@ func (tree *HTree) remove(ki *KeyInfo, oldPos Position) {
 
 	tree.getLeafAndInvalidNodes(ki, &tree.ni)
 	tree.remvoeFromLeaf(&tree.ni, ki, oldPos)
+	if utils.VerifOn {
+		utils.Verif("tree.remove", tree.bucketID, tree.depth, ki.KeyHash, oldPos.ChunkID, oldPos.Offset)
+	}
 }
 
 func (tree *HTree) get(ki *KeyInfo) (meta *Meta, pos Position, found bool) {
@@ -326,6 +337,9 @@ func (tree *HTree) getReq(req *HTreeReq) (found bool) {
 	tree.getLeaf(req.ki, ni)
 
 	found = tree.leafs[ni.offset].Get(req)
+	if utils.VerifOn {
+		utils.Verif("tree.get", tree.bucketID, tree.depth, req.ki.KeyHash, found, req.item.Pos.ChunkID, req.item.Pos.Offset, req.item.Ver, req.item.Vhash)
+	}
 	return
 }
 
